@@ -10,6 +10,7 @@ import (
 	"errors"
 	"fmt"
 	"io"
+	"slices"
 	"sync/atomic"
 	"time"
 
@@ -795,6 +796,12 @@ func (adapter *Adapter) watchAdapter(
 			if !channel.SendWithContext(ctx, aggregatedCh, events) {
 				return
 			}
+		}
+
+		// an errored event is terminal: the server side of the watch is gone, so neither wait for
+		// more messages nor report the end of the stream as one more error
+		if slices.ContainsFunc(events, func(event state.Event) bool { return event.Type == state.Errored }) {
+			return
 		}
 	}
 }
